@@ -189,9 +189,13 @@ def _first_diff(names, want, got):
     return None
 
 
-def _io_variant(variant, d, fname, writer, reader, obj, binary=False):
-    """write obj with the given path/handle variant, read it back; returns (read object, raw file content)"""
+def _io_variant(variant, d, fname, writer, reader, obj, binary=False, prior=None):
+    """write obj with the given path/handle variant, read it back; returns (read object, raw file content).
+    prior: a DIFFERENT object that is first saved to the same path and loaded (same variant) before obj is saved over it -
+    'saving and loading it again yields the same data' also holds for the second save to a path within one process"""
     p = os.path.join(d, fname)
+    if prior is not None and variant != "memory":
+        _io_variant(variant, d, fname, writer, reader, prior, binary=binary)
     if variant == "str":
         writer(p, obj)
         raw = open(p, "rb").read()
@@ -219,9 +223,14 @@ def impl_tum(case):
     from evo.core.trajectory import PoseTrajectory3D
     st, xyz, q = tum_arrays(case)
     traj = PoseTrajectory3D(xyz.copy(), q.copy(), st.copy())
+    prior = None
+    if case.get("prior") is not None:
+        pst, pxyz, pq = tum_arrays(case["prior"])
+        prior = PoseTrajectory3D(pxyz, pq, pst)
     d = tempfile.mkdtemp(prefix="c06_")
     try:
-        r, raw = _io_variant(case["variant"], d, "traj_ü.tum", fi.write_tum_trajectory_file, fi.read_tum_trajectory_file, traj)
+        r, raw = _io_variant(case["variant"], d, "traj_ü.tum", fi.write_tum_trajectory_file, fi.read_tum_trajectory_file, traj,
+                             prior=prior)
     except Exception as e:  # noqa
         return {"error": type(e).__name__ + ": " + str(e)[:200]}
     finally:
@@ -243,9 +252,11 @@ def impl_kitti(case):
     from evo.core.trajectory import PosePath3D
     poses = kitti_poses(case)
     path = PosePath3D(poses_se3=[p.copy() for p in poses])
+    prior = PosePath3D(poses_se3=kitti_poses(case["prior"])) if case.get("prior") is not None else None
     d = tempfile.mkdtemp(prefix="c06_")
     try:
-        r, raw = _io_variant(case["variant"], d, "poses.kitti", fi.write_kitti_poses_file, fi.read_kitti_poses_file, path)
+        r, raw = _io_variant(case["variant"], d, "poses.kitti", fi.write_kitti_poses_file, fi.read_kitti_poses_file, path,
+                             prior=prior)
     except Exception as e:  # noqa
         return {"error": type(e).__name__ + ": " + str(e)[:200]}
     finally:
@@ -558,6 +569,14 @@ def _unsome(v):
 
 
 def judge(case, val, out):
+    f = _judge(case, val, out)
+    if f is not None and case.get("prior") is not None and f.get("kind") == "spec-violation":
+        f["detail"] += (" [second save to this path in one process: a different trajectory of %d poses had been saved to and "
+                        "loaded from the same path before]" % n_poses(case["prior"]))
+    return f
+
+
+def _judge(case, val, out):
     k = case["kind"]
     if "error" in out:
         return {"kind": "spec-violation", "failing_input": True, "detail": "writer/reader failed on a valid input: " + out["error"]}
@@ -672,6 +691,15 @@ def nontrivial(case, val, out):
 
 
 def shrink(case):
+    if case.get("prior") is not None:
+        c = copy.deepcopy(case)
+        del c["prior"]
+        yield c
+        if "gen" in case["prior"]:
+            for n in sorted({1, 2} - {case["prior"]["gen"]["n"]}):
+                c = copy.deepcopy(case)
+                c["prior"]["gen"]["n"] = n
+                yield c
     if "gen" in case and case["kind"] != "res":
         g = case["gen"]
         for n in sorted({1, 2, 3, g["n"] // 2, g["n"] // 10} - {0, g["n"]}):
@@ -747,6 +775,21 @@ def corpus():
                        "data": {"info": info, "stats": stats, "arrays": arrays, "trajs": trajs}})
     cs.append({"kind": "res", "variant": "str", "load_trajectories": True, "data": {"info": {}, "stats": [], "arrays": [], "trajs": []}})
     cs.extend(res_order_cases())
+    cs.extend(overwrite_cases())
+    return cs
+
+
+def overwrite_cases():
+    """save A to a path, load it, save a DIFFERENT trajectory B to the same path, load it again (one process, as a batch script
+    or evo_traj --save_as_* overwriting a file does): the second load must be B bit for bit (more / fewer / as many poses as A)"""
+    cs = []
+    i = 0
+    for kind, sa, sb in (("tum", "epoch", "hard"), ("kitti", "rot", "arbitrary")):
+        for v in ("str", "pathlib", "handle"):
+            for na, nb in ((3, 3), (5, 2), (2, 6), (1, 1)):
+                cs.append({"kind": kind, "variant": v, "gen": {"seed": 700 + i, "n": nb, "style": sb},
+                           "prior": {"gen": {"seed": 800 + i, "n": na, "style": sa}}})
+                i += 1
     return cs
 
 
@@ -813,6 +856,12 @@ def random_cases(ctx):
         n = int(rng.integers(1, 10))
         cs.append({"kind": "kitti", "variant": VARIANTS[i % 4],
                    "gen": {"seed": int(rng.integers(0, 2 ** 31)), "n": n, "style": "arbitrary" if i % 3 == 0 else "rot"}})
+    for i in range(ctx.n(40, 300)):   # second save to the same path after a load of the first (path and handle variants)
+        kind = ["tum", "kitti"][i % 2]
+        sty = (styles if kind == "tum" else ["rot", "arbitrary"])
+        cs.append({"kind": kind, "variant": ["str", "pathlib", "str", "handle"][(i // 2) % 4],
+                   "gen": {"seed": int(rng.integers(0, 2 ** 31)), "n": int(rng.integers(1, 9)), "style": sty[i % len(sty)]},
+                   "prior": {"gen": {"seed": int(rng.integers(0, 2 ** 31)), "n": int(rng.integers(1, 9)), "style": sty[(i + 1) % len(sty)]}}})
     for i in range(ctx.n(80, 500)):
         n = int(rng.integers(1, 12))
         cs.append({"kind": "df", "variant": "none", "source": ["traj", "path"][i % 2], "as_type": ["none", "path", "traj"][i % 3],
@@ -950,13 +999,15 @@ def run(ctx, replay=None, proofs_ok=True):
         if c["kind"] == "res" or n <= SMALL:
             modelled += 1
         b = "%s:%s%s" % (c["kind"], c.get("variant", ""), "" if c["kind"] == "res" else ",n<=%d" % (10 ** len(str(max(n - 1, 0)))))
+        if c.get("prior") is not None:
+            b += ",overwrites-a-loaded-file"
         if c["kind"] == "res":
             b += ",load_trajectories=%s" % c["load_trajectories"]
         hist[b] = hist.get(b, 0) + 1
     cov = {"evaluations": stats["evaluations"], "distinct_nontrivial": stats["distinct_nontrivial"],
            "rule": "corpus (EuRoC-like epoch stamps with ns fractions, 1e-300/1e300/5e-324/-0.0, unicode info, dotted and unicode "
                    "names, empty result, result archives with two or three embedded trajectories / arrays of different serialised "
-                   "lengths in both orders incl. equal pose counts that differ only in minus signs) + random TUM / KITTI / DataFrame / ROS1-bag / result-zip cases over hard scalar classes "
+                   "lengths in both orders incl. equal pose counts that differ only in minus signs; TUM/KITTI save A - load - save a different B to the same path - load sequences in one process) + random TUM / KITTI / DataFrame / ROS1-bag / result-zip cases over hard scalar classes "
                    "(17-digit, 1e-300..1e300, subnormals, special doubles, neighbours of short decimals and of powers of two, UTM "
                    "sizes) x {str path, pathlib.Path, open handle, in-memory handle}; every case: reader output == writer input "
                    "bit for bit; cases with <= %d poses also: written file == model writer, model reader(file) == evo reader; "
